@@ -535,6 +535,14 @@ def stepVerify (s : St) (line : String) : Option (St × String) :=
       | .abort _ => some (s, "read 0 - abort")
       | .oob _ => some (s, "read 0 - oob")
       | .ok r =>
+        -- an earlier lookup on the same reader: the reader is immutable, so it matters only if it stops the process
+        let firstAborts : Bool := match (kv args "first").bind unhex with
+          | none => false
+          | some k0 => match readerIterInit s.fixF1 r (some k0) (.get k0) with
+            | none => true
+            | some none => false
+            | some (some it0) => (drainReader s.fixF1 it0 0 none).2.2 == "abort"
+        if firstAborts then some (s, "read 0 - abort") else
         let gk := (kv args "get").bind unhex
         let init := match gk with
           | some k => readerIterInit s.fixF1 r (some k) (.get k)
